@@ -8,7 +8,7 @@ OP = "line.C02"
 RULE = ("for each of the ten commands (three in v1) a valid template built from the documented format, then the "
         "single-field mutation matrix: every field path x {absent, null, booleans, boundary integers, floats, "
         "empty / non-hex / odd / spaced / 15..33-byte hex strings, lists, objects, extra keys, key-id variants}; "
-        "pairs of mutations in the thorough tier; non-objects.  The verdict is observed as (errorcode, number "
+        "the same mutations while a link repair is pending (sampled in quick); pairs of mutations in the thorough tier; non-objects.  The verdict is observed as (errorcode, number "
         "of APDUs the recording device saw).  non-trivial = the mutated value differs from the template's; "
         "distinct by hash of the canonical case")
 ASSUMPTIONS = ["Spec/C02.lean is a hand formalisation of docs/protocol.md and docs/protocol-v1.md "
@@ -48,6 +48,13 @@ def gen(tier, rng):
             for path, val, mreq in muts:
                 out.append(linegen.line_case(rng, mreq, fulls, mode=mode, policy={}, stream="mutation",
                                              field="/".join(map(str, path)), value=repr(val)[:40]))
+            # the same refusals while a link repair is pending: a refused request must not trigger it either
+            pend = muts if tier == "thorough" else rng.sample(muts, min(25, len(muts)))
+            for path, val, mreq in pend:
+                out.append(linegen.line_case(rng, mreq, fulls, mode=mode, policy={}, stream="mutation-pending",
+                                             field="/".join(map(str, path)), value=repr(val)[:40],
+                                             comm_issue=True, conns=rng.choice([[True], [True], [False], []]),
+                                             pin={"pin": b"1234567a".hex(), "needs_change": False}))
             if tier == "thorough":
                 for _ in range(300):
                     (p1, v1, r1) = rng.choice(muts)
@@ -76,7 +83,7 @@ def tags(c, o):
 
 
 def nontrivial(c, o):
-    return c.meta.get("stream") in ("mutation", "mutation-pair", "non-object", "cross-mode")
+    return c.meta.get("stream") in ("mutation", "mutation-pending", "mutation-pair", "non-object", "cross-mode")
 
 
 def _bad_block_member(req):
@@ -97,8 +104,9 @@ def finding_signature(c, o):
     req = c.input["line"].get("request")
     if isinstance(req, dict) and req.get("command") in ("advanceBlockchain", "updateAncestorBlock") \
             and _bad_block_member(req) and isinstance(o, dict) \
-            and any(e.startswith("A") for e in o.get("events", [])) \
-            and isinstance(o.get("reply"), dict) and o["reply"].get("errorcode") == -204:
+            and o.get("events") \
+            and isinstance(o.get("reply"), dict) and o["reply"].get("errorcode") in (-204, -905):
+        # -905 instead of -204 only when the contact was a pending link repair that failed
         return {"call_site": "comm/protocol.py:_validate_%s" % (
             "advance_blockchain" if req["command"] == "advanceBlockchain" else "update_ancestor_block"),
             "field": "blocks", "defect": "member is a string but not hex"}
